@@ -46,8 +46,8 @@ static void l0_havoc(void) {
                    g_nassign < (1UL << 40) && g_ndtor < (1UL << 40) && g_nmove < (1UL << 40) && g_nbytecopy < (1UL << 40) && g_ncmp < (1UL << 40));
   g_tmp_obj = 0; g_tmp_has = 0; g_tmp_val = 0;
   g_allow_elem_throw = nondet_bool(); g_allow_alloc_fail = nondet_bool();
-  g_N = nondet_u64(); g_alias = nondet_bool(); g_src = nondet_u64(); g_pos = nondet_u64(); g_pos2 = nondet_u64(); g_cnt = nondet_u64();
-  __CPROVER_assume(g_src < (1UL << 32) && g_pos < (1UL << 32) && g_pos2 < (1UL << 32) && g_N < (1UL << 32));
+  g_N = nondet_u64(); g_N2 = nondet_u64(); g_alias = nondet_bool(); g_src = nondet_u64(); g_pos = nondet_u64(); g_pos2 = nondet_u64(); g_cnt = nondet_u64();
+  __CPROVER_assume(g_src < (1UL << 32) && g_pos < (1UL << 32) && g_pos2 < (1UL << 32) && g_N < (1UL << 32) && g_N2 < (1UL << 32));
 #ifdef WITH_SETS
   l0_havoc_sets();
 #endif
